@@ -36,8 +36,13 @@ type huge4K struct{ V [513]int64 }
 type huge64K struct{ V [65536]int8 }
 type huge72K struct{ V [96][96]float64 }
 
+// keptRes is the resource type for which a typed Resource[T] handle is kept for the whole case
+type keptRes struct{ V int }
+
 var specialTypes = []reflect.Type{reflect.TypeFor[notRelNamed](), reflect.TypeFor[notRelSecond](), reflect.TypeFor[notRelOtherType](), reflect.TypeFor[relWithPayload](),
-	reflect.TypeFor[huge1K](), reflect.TypeFor[huge4K](), reflect.TypeFor[huge64K](), reflect.TypeFor[huge72K]()}
+	reflect.TypeFor[huge1K](), reflect.TypeFor[huge4K](), reflect.TypeFor[huge64K](), reflect.TypeFor[huge72K](), reflect.TypeFor[keptRes]()}
+
+const lastHuge = 7 // index of the last huge type in specialTypes
 
 const firstHuge = 4 // index of the first huge type in specialTypes
 
@@ -97,7 +102,8 @@ func testRegistry(rt *rapid.T, st *RunStats) {
 	u := w.Unsafe()
 	m := &regModel{ids: map[int]uint8{}}
 	resM := &regModel{ids: map[int]uint8{}}
-	resVal := map[uint8]*int{}
+	resVal := map[uint8]any{}
+	var kept *ecs.Resource[keptRes] // created when the type is first registered as a resource, then kept
 	perm := rapid.Permutation(seq(nRegTypes)).Draw(rt, "typeOrder")
 	next := 0 // next unregistered position in perm
 	nextRes := 0
@@ -491,7 +497,7 @@ func testRegistry(rt *rapid.T, st *RunStats) {
 			hugeSeen := false
 			for id := first; id < first+k; id++ {
 				ti := m.order[id]
-				if ti >= comps.N+firstHuge && ti < comps.N+len(specialTypes) {
+				if ti >= comps.N+firstHuge && ti <= comps.N+lastHuge {
 					if hugeSeen {
 						continue // one huge component per entity is enough
 					}
@@ -661,7 +667,7 @@ func testRegistry(rt *rapid.T, st *RunStats) {
 					}
 				}
 			}
-			resVal = map[uint8]*int{}
+			resVal = map[uint8]any{}
 			// (handles from before the Reset are re-issued afterwards, so nothing is asked about them)
 			q := ecs.NewFilter0(w).Query()
 			if n := q.Count(); n != 0 {
@@ -706,7 +712,7 @@ func testRegistry(rt *rapid.T, st *RunStats) {
 			}
 			// the huge types, when registered (a drawn one of them is always used)
 			var hugeIDs []uint8
-			for k := firstHuge; k < len(specialTypes); k++ {
+			for k := firstHuge; k <= lastHuge; k++ {
 				if id, ok := m.ids[comps.N+k]; ok {
 					hugeIDs = append(hugeIDs, id)
 				}
@@ -847,6 +853,9 @@ func testRegistry(rt *rapid.T, st *RunStats) {
 		},
 		"resource": func(t *rapid.T) {
 			ti := perm[rapid.IntRange(0, min(nextRes+2, nRegTypes-1)).Draw(t, "resType")]
+			if rapid.IntRange(0, 3).Draw(t, "theKeptResource") == 0 {
+				ti = comps.N + lastHuge + 1 // the type with the kept typed handle
+			}
 			tp := regType(ti)
 			id, known := resM.ids[ti]
 			if !known {
@@ -888,11 +897,29 @@ func testRegistry(rt *rapid.T, st *RunStats) {
 			if res.Has(rid) != has {
 				failf("resources|has", "Has(%d)=%v, model %v", id, !has, has)
 			}
+			isKept := tp == reflect.TypeFor[keptRes]()
+			if isKept && kept == nil {
+				h := ecs.NewResource[keptRes](w)
+				kept = &h
+			}
+			viaHandle := isKept && rapid.Bool().Draw(t, "viaKeptHandle")
 			switch rapid.IntRange(0, 2).Draw(t, "resOp") {
 			case 0:
-				v := new(int)
-				*v = int(id)*1000 + len(resVal)
-				p := try(func() { res.Add(rid, v) })
+				var v any
+				if isKept {
+					v = &keptRes{V: int(id)*1000 + len(resVal)}
+				} else {
+					iv := new(int)
+					*iv = int(id)*1000 + len(resVal)
+					v = iv
+				}
+				p := try(func() {
+					if viaHandle {
+						kept.Add(v.(*keptRes))
+					} else {
+						res.Add(rid, v)
+					}
+				})
 				if has && p == nil {
 					failf("resources|add|duplicate-accepted", "second Add for resource %d did not panic", id)
 				}
@@ -903,7 +930,13 @@ func testRegistry(rt *rapid.T, st *RunStats) {
 					resVal[id] = v
 				}
 			case 1:
-				p := try(func() { res.Remove(rid) })
+				p := try(func() {
+					if viaHandle {
+						kept.Remove()
+					} else {
+						res.Remove(rid)
+					}
+				})
 				if !has && p == nil {
 					failf("resources|remove|absent-accepted", "Remove of absent resource %d did not panic", id)
 				}
@@ -919,9 +952,26 @@ func testRegistry(rt *rapid.T, st *RunStats) {
 			for k, v := range resVal {
 				r := ecs.ResourceTypeID(w, regType(resM.order[k]))
 				got := res.Get(r)
-				if got == nil || got.(*int) != v {
+				if got == nil || got != v {
 					failf("resources|get", "resource %d does not return the value added", k)
 				}
+			}
+			if kept != nil {
+				// the handle that has been kept since the type was registered sees exactly what the other routes see
+				kid := resM.ids[comps.N+lastHuge+1]
+				want, has := resVal[kid]
+				if kept.Has() != has {
+					failf("resources|kept-handle|has", "kept Resource[T] handle: Has=%v, model %v", !has, has)
+				}
+				// (Get is not called every time while the resource is absent: a handle that is not asked in between must
+				// still see the resource that is added next)
+				if has || rapid.IntRange(0, 3).Draw(t, "askKeptHandleWhileAbsent") == 0 {
+					got := kept.Get()
+					if has && got != want.(*keptRes) || !has && got != nil {
+						failf("resources|kept-handle|get", "kept Resource[T] handle returns %p, the resource registered now is %v", got, want)
+					}
+				}
+				cls["typed-resource-handle-kept"] = true
 			}
 			if got := res.Get(rid); (got != nil) != (resVal[id] != nil) {
 				failf("resources|get", "Get(%d) nil=%v, model present=%v", id, got == nil, resVal[id] != nil)
